@@ -83,19 +83,30 @@ def gen(rng):
                         ["strict", c, True]]
         if rng.random() < 0.7:
             case["ops"].append(["run", n, []])
+    if rng.random() < 0.25:
+        # a typed upstream output whose own strictness is off holds a non-int; a strict typed input fetches from it:
+        # the delivery itself has to be refused (connection-time hint compatibility says nothing about the data)
+        case["u1_typed"] = True
+        n = rng.randrange(2)
+        c = rng.choice([3, 4] if n == 0 else [5, 6])
+        case["ops"] += [["strict", 1, False], ["setout", 1, ["bad", rng.randint(1, 3)]], ["connect", c, 1],
+                        rng.choice([["fetch", n], ["run", n, []]])]
     for _ in range(rng.randint(6, 22)):
         r = rng.random()
         inp = rng.choice([3, 4, 5, 6])
         if r < 0.16:
             case["ops"].append(["setout", rng.randrange(3), rng.choice(vals)])
-        elif r < 0.36:
+        elif r < 0.30:
             case["ops"].append(["connect", inp, rng.randrange(3)])
+        elif r < 0.36:
+            case["ops"].append(["connectmany", inp, rng.sample(range(3), rng.choice([2, 2, 3]))])
         elif r < 0.41:
             case["ops"].append(["disconnect", inp, rng.randrange(3)])
         elif r < 0.53:
             case["ops"].append(["assign", inp, rng.choice(vals)])
         elif r < 0.60:
-            case["ops"].append(["strict", inp, rng.random() < 0.5])
+            # strictness of inputs and of (typed or untyped) upstream outputs
+            case["ops"].append(["strict", inp if rng.random() < 0.7 else rng.randrange(3), rng.random() < 0.5])
         elif r < 0.66:
             if rng.random() < 0.3:     # output -> output links (what a macro does for its outputs)
                 case["ops"].append(["link", rng.randrange(3), rng.randrange(3)])
@@ -157,6 +168,8 @@ def run_impl(case):
                 ch[c].value = val_py(op[2])
             elif op[0] == "connect":
                 ch[op[1]].connect(ch[op[2]])
+            elif op[0] == "connectmany":
+                ch[op[1]].connect(*[ch[u] for u in op[2]])
             elif op[0] == "disconnect":
                 ch[op[1]].disconnect(ch[op[2]])
             elif op[0] == "strict":
@@ -212,6 +225,8 @@ def op_coq(op):
         return f"FAssign {cn(op[1])} {slot_coq(op[2])}"
     if k == "connect":
         return f"FConnect {cn(op[1])} {cn(op[2])}"
+    if k == "connectmany":
+        return f"FConnectMany {cn(op[1])} {cl(cn(u) for u in op[2])}"
     if k == "disconnect":
         return f"FDisconnect {cn(op[1])} {cn(op[2])}"
     if k == "strict":
@@ -254,7 +269,17 @@ def oracle(case, obs):
     prev_failed = [False, False]
     lockd = [False, False]
     recv = {}
+    exp_conns = [[], [], [], []]      # what "most recently connected first" means, derived from the operations alone
     for op, (out, vals, failed, _, conns) in zip(case["ops"], obs):
+        if op[0] in ("connect", "connectmany") and out == "ok":
+            for u in ([op[2]] if op[0] == "connect" else op[2]):
+                if u not in exp_conns[op[1] - 3]:
+                    exp_conns[op[1] - 3].insert(0, u)
+        if op[0] == "disconnect" and op[2] in exp_conns[op[1] - 3]:
+            exp_conns[op[1] - 3].remove(op[2])
+        if conns != exp_conns:
+            return (f"wrong-priority-order: after {op} the inputs consult their connections in the order {conns}, "
+                    f"most-recently-connected-first is {exp_conns}")
         # (3) no strictly hinted channel ever holds a non-int
         for c in range(9):
             if typed[c] and strict[c] and isinstance(vals[c], list) and vals[c] != prev_vals[c]:
